@@ -139,6 +139,7 @@ fn real_main(mut args: Vec<String>) -> i32 {
                 "C17" => props::c17::run(&tier, seed),
                 "C06" | "C18" => props::e3::run(prop, &tier, seed),
                 "C08" => props::c08::run(&tier, seed),
+                "C07" => props::c07::run(&tier, seed),
                 _ => {
                     out!("MACHINERY-ERROR: unknown property {}", prop);
                     return 2;
@@ -179,6 +180,7 @@ fn replay(path: &str, worker: bool) -> i32 {
             "c17-string" => props::c17::replay(r),
             "e3-word" => props::e3::replay(&prop, r),
             "c08-tiny" => props::c08::replay(r),
+            "c07-stop" => props::c07::replay(r),
             _ => Err(format!("unknown replay kind {:?}", kind)),
         }
     };
